@@ -232,6 +232,10 @@ def env_jobs(pid, tier, seed):
     if pid == "C14":
         return [envjob("market-direct", 2, seed, n(1500, 15000)),
                 envjob("menv-shuffled", 1, seed + 1, n(1200, 12000), maxbatch=8, rounds=5)]
+    if pid == "C13":
+        return [envjob("market-direct-toggles", 2, seed + 21, n(1200, 12000)),
+                envjob("menv-toggles", 1, seed + 22, n(900, 9000), maxbatch=7, rounds=6),
+                envjob("env-toggles", 0, seed + 23, n(600, 6000), maxbatch=6, rounds=6)]
     if pid == "C15":
         return [envjob("env-distinct-batches", 0, seed, n(2500, 40000), maxbatch=n(16, 64), rounds=4, distinct=1, toggles=0),
                 envjob("menv-distinct-batches", 1, seed + 1, n(2500, 40000), maxbatch=n(16, 64), rounds=4, distinct=1, toggles=0),
@@ -240,7 +244,7 @@ def env_jobs(pid, tier, seed):
     return []
 
 
-ENV_MON = {"C08": 8, "C05": 8, "C10": 10, "C11": 11, "C14": 14}
+ENV_MON = {"C08": 8, "C05": 8, "C10": 10, "C11": 11, "C14": 14, "C13": 13}
 ECATS = {8: "book observations (orders, trades, market data, arrival times)", 32: "level-2 snapshot handed to agents",
          64: "per-step traded volumes", 128: "recorded series", 256: "generator state"}
 
@@ -267,7 +271,7 @@ def classify_env(pid, r, after_resched=False):
         if after_resched and pid != "C15":
             return None
         cats = r[1] if len(r) > 1 else 0
-        proj = {"C08": 8 | 64 | 256, "C05": 8 | 64, "C10": 8 | 32 | 64 | 128, "C11": 64 | 128 | 32, "C14": 8 | 64 | 32, "C15": 8 | 256}.get(pid, 511)
+        proj = {"C08": 8 | 64 | 256, "C05": 8 | 64, "C10": 8 | 32 | 64 | 128, "C11": 64 | 128 | 32, "C14": 8 | 64 | 32, "C15": 8 | 256, "C13": 8 | 64}.get(pid, 511)
         if not (k == 2 or cats & proj):
             return None
         return "tie"
@@ -580,6 +584,12 @@ def run_c07(ctx):
     return 1 if ctx.violations else rc
 
 
+def _prefer_concrete(ctx):
+    """when one half found a failing input, the other half's broken-correspondence reports say nothing more"""
+    if any(not nofail for _, nofail in ctx.violations):
+        ctx.violations[:] = [(rp, nofail) for rp, nofail in ctx.violations if not nofail]
+
+
 def run_c05(ctx):
     """C05 = the book-level tie histories plus environment steps that carry more instructions than the step size."""
     rc_env = run_env_property(ctx, "Properties/C05.v", proof=False)
@@ -587,6 +597,18 @@ def run_c05(ctx):
             "implementation_panics_observed", "traces_validated_against_impl")
     ctx.coverage["environment_overfull_steps"] = {k: ctx.coverage.pop(k) for k in keep if k in ctx.coverage}
     rc_book = run_book_property(ctx, "Properties/C05.v")
+    _prefer_concrete(ctx)
+    return 1 if (rc_env or rc_book or ctx.violations) else 0
+
+
+def run_c13(ctx):
+    """C13 = the book-level histories with toggles plus the market-wide and environment-wide switches."""
+    rc_env = run_env_property(ctx, "Properties/C13.v", proof=False)
+    keep = ("evaluations", "distinct_nontrivial", "rule", "samples", "operations_compared", "jobs", "reports_total",
+            "implementation_panics_observed", "traces_validated_against_impl")
+    ctx.coverage["market_and_environment_switches"] = {k: ctx.coverage.pop(k) for k in keep if k in ctx.coverage}
+    rc_book = run_book_property(ctx, "Properties/C13.v")
+    _prefer_concrete(ctx)
     return 1 if (rc_env or rc_book or ctx.violations) else 0
 
 
@@ -610,7 +632,7 @@ PROPS = {
     "C18": run_c18,
     "C19": run_c19,
     "C12": lambda ctx: run_book_property(ctx, "Properties/C12.v"),
-    "C13": lambda ctx: run_book_property(ctx, "Properties/C13.v"),
+    "C13": run_c13,
 }
 
 
